@@ -25,6 +25,7 @@ type specEnv struct {
 	loop     *loopInfo
 	callArgs []Val
 	fnScope  *ssa.Function
+	pkg      *ssa.Package
 	qdepth   int
 	nq       *int
 }
@@ -56,6 +57,13 @@ func (a *act) bodyEnv(st *State, at *ssa.BasicBlock) *specEnv {
 	env.old = a.entry
 	env.vars = map[string]Val{}
 	return env
+}
+
+func (env *specEnv) scopePkg() *ssa.Package {
+	if env.fnScope != nil {
+		return fnPkg(env.fnScope)
+	}
+	return env.pkg
 }
 
 func (env *specEnv) withState(st *State) *specEnv {
@@ -280,7 +288,7 @@ func (env *specEnv) ident(name string) (Val, error) {
 		return Val{}, fmt.Errorf("no result here")
 	}
 	a := env.a
-	if a != nil {
+	if a != nil && a.fn != nil {
 		if env.body {
 			if al := a.allocNamed(name, env.at); al != nil {
 				return env.loadAlloc(al), nil
@@ -305,8 +313,8 @@ func (env *specEnv) ident(name string) (Val, error) {
 		}
 	}
 	// package-level
-	if env.fnScope != nil {
-		pkg := fnPkg(env.fnScope)
+	if env.scopePkg() != nil {
+		pkg := env.scopePkg()
 		if pkg != nil {
 			if v, ok, err := env.pkgMember(pkg, name); ok {
 				return v, err
@@ -756,8 +764,8 @@ func (env *specEnv) parseType(s string) (types.Type, error) {
 	if i := strings.Index(s, "."); i >= 0 {
 		pkg = env.e.pkgByName(s[:i])
 		name = s[i+1:]
-	} else if env.fnScope != nil {
-		pkg = fnPkg(env.fnScope)
+	} else if env.scopePkg() != nil {
+		pkg = env.scopePkg()
 	}
 	if pkg != nil {
 		if o := pkg.Pkg.Scope().Lookup(name); o != nil {
@@ -875,8 +883,8 @@ func (env *specEnv) call(x *Expr) (Val, error) {
 	var recv *Val
 	switch f.Op {
 	case "ident":
-		if env.fnScope != nil {
-			if pkg := fnPkg(env.fnScope); pkg != nil {
+		if env.scopePkg() != nil {
+			if pkg := env.scopePkg(); pkg != nil {
 				fn = pkg.Func(f.Name)
 			}
 		}
@@ -966,7 +974,44 @@ func (env *specEnv) applyGoFunc(fn *ssa.Function, args []Val) (Val, error) {
 		}
 	}
 	if fs := e.specOf(fn); fs != nil && fs.Pure {
-		return a.pureSpecUF(fs, name, args, rtyp, env.st), nil
+		res := a.pureSpecUF(fs, name, args, rtyp, env.st)
+		// instantiate the contract for this application: requires ==> ensures
+		sub := e.newEnv(a, env.st)
+		sub.vars = map[string]Val{}
+		sub.fnScope = fn
+		sub.qdepth = env.qdepth
+		sub.nq = env.nq
+		sig := fn.Signature
+		pi := 0
+		if sig.Recv() != nil {
+			sub.vars[sig.Recv().Name()] = args[0]
+			pi = 1
+		}
+		for i := 0; i < sig.Params().Len() && pi+i < len(args); i++ {
+			sub.vars[sig.Params().At(i).Name()] = args[pi+i]
+		}
+		if sig.Results().Len() == 1 {
+			sub.results = []Val{res}
+			if n := sig.Results().At(0).Name(); n != "" {
+				sub.vars[n] = res
+			}
+		}
+		var pre, post []Term
+		for _, c := range fs.Requires {
+			if t, err := sub.evalBool(c.E); err == nil {
+				pre = append(pre, t)
+			}
+		}
+		for _, c := range fs.Ensures {
+			if t, err := sub.evalBool(c.E); err == nil {
+				post = append(post, t)
+			}
+		}
+		e.cur.log.assert(implies(and(pre...), and(post...)))
+		if fs.Trusted {
+			e.cur.trustedUsed[name] = true
+		}
+		return res, nil
 	}
 	if fn.Pkg != nil && (pureLibPkgs[fn.Pkg.Pkg.Path()] || pureLibFuncs[name]) {
 		return a.pureUF(name, args, rtyp, env.st), nil
